@@ -348,6 +348,14 @@ class Interp:
             raise AnalysisError(f"call depth exceeded in {clo.qualname}")
         if clo.qualname:
             self.trace_calls.append(clo.qualname)
+        # a memoising decorator gives the function state across calls; dropping it silently would be unsound, so a
+        # check that interprets such a function must model it (allow_memoised names the ones it has modelled)
+        if not isinstance(node, ast.Lambda) and getattr(node, "decorator_list", None):
+            for d_ in node.decorator_list:
+                txt = ast.unparse(d_)
+                if ("lru_cache" in txt or txt.split("(")[0].split(".")[-1] == "cache") and getattr(self, "allow_memoised", ()) is not True and clo.qualname not in getattr(self, "allow_memoised", ()):
+                    self.depth -= 1
+                    raise AnalysisError(f"{clo.qualname or node.name} is memoised ({txt}): interpreting it as a plain function would ignore state kept between calls")
         try:
             env = Env(clo.env)
             if clo.cls is not None:
